@@ -18,7 +18,7 @@ sys.path.insert(0, os.path.join(VERIF, 'lower'))
 CBMC_FLAGS = ['--bounds-check', '--pointer-check', '--signed-overflow-check', '--div-by-zero-check',
               '--pointer-overflow-check', '--conversion-check', '--no-malloc-may-fail',
               '--object-bits', '10']
-TIMEOUT = int(os.environ.get('VF_TIMEOUT', '300'))
+TIMEOUT = int(os.environ.get('VF_TIMEOUT', '900'))
 MEM_KB = 8 * 1024 * 1024
 
 
